@@ -36,3 +36,8 @@ Definition pthr_ok (r : int * int * int * int) : bool :=
 Definition plock_ok (r : int * int * int) : bool :=
   let '(n, a, rl) := r in
   Bool.eqb (abs_lock_from_consensus (pi2n n)) (Uint63.eqb a 1) && Bool.eqb (rel_lock_from_consensus (pi2n n)) (Uint63.eqb rl 1).
+
+(* Threshold::from_iter: (MAX, k, size hint, items, ok) *)
+Definition pfi_ok (r : int * int * int * int * int) : bool :=
+  let '(m, k, h, n, ok) := r in
+  Bool.eqb (threshold_from_iter (pi2n m) (pi2n k) (pi2n h) (pi2n n)) (Uint63.eqb ok 1).
